@@ -15,6 +15,13 @@ def search(driver, rng, n):
     for L in (1, 2, 3):
         for combo in itertools.product(basic, repeat=L):
             hists.append(list(combo) + [('I',), ('L',), ('GI', -1), ('IX', 'a'), ('GS', None, None, -1)])
+    # the same over neighbouring priorities that only exact comparison separates (beyond float resolution; Fraction / Decimal)
+    for lo, hi in R.CLOSE_PAIRS[::3]:
+        big = [('R', i + 1, nm, p) for i, (nm, p) in enumerate(itertools.product('ab', (lo, hi)))] + [('D', 'a', True)]
+        for L in (2, 3):
+            for combo in itertools.product(big, repeat=L):
+                hists.append(list(combo) + [('I',), ('GI', -1), ('IX', 'a'), ('GS', None, None, -1)])
+    hists += R.close_pair_histories()
     ans = driver.ask_many([('reg.spec',) + tuple(R.enc_op(o) for o in h) for h in hists])
     viol = []; seen = set()
     for h, a in zip(hists, ans):
@@ -24,4 +31,4 @@ def search(driver, rng, n):
             viol.append({'input': [R.enc_op(o) for o in h], 'observed': real, 'required': a, 'finding': None,
                          'note': 'observations of util.Registry differ from stableSortDesc(log ops)'})
     return {'cases': len(hists), 'distinct': len(seen), 'violations': viol,
-            'samples': [{'history': [R.enc_op(o) for o in hists[0]], 'spec': ans[0]}], 'dist': {'histories': len(hists)}}
+            'samples': [{'history': [R.enc_op(o) for o in hists[0]], 'spec': ans[0]}], 'dist': {'histories': len(hists), 'wide_priority_histories': sum(1 for h in hists if R.is_wide(h))}}
